@@ -955,10 +955,16 @@ impl Parsed {
             guessed_offset = tz.offset_from_utc_datetime(&dt).fix().local_minus_utc();
         }
 
-        // checks if the given `DateTime` has a consistent `Offset` with given `self.offset`.
+        // checks if the given `DateTime` has a consistent `Offset` with given `self.offset`, and,
+        // when `self.timestamp` is given, with the offset the time zone has at that instant
+        // (otherwise a repeated local time could be resolved to the other instant).
         let check_offset = |dt: &DateTime<Tz>| {
+            let dt_offset = dt.offset().fix().local_minus_utc();
+            if self.timestamp.is_some() && dt_offset != guessed_offset {
+                return false;
+            }
             if let Some(offset) = self.offset {
-                dt.offset().fix().local_minus_utc() == offset
+                dt_offset == offset
             } else {
                 true
             }
